@@ -6,6 +6,7 @@
        [ev |-> "panic", id]           job id panicked
        [ev |-> "stalehandler", id]    a panic handler that SetPanicHandler had replaced earlier was called
        [ev |-> "closeret"]            Close() has returned
+       [ev |-> "starved", id]         a panic handler scheduled job id and waited 3 s for it in vain (the pool did nothing while the handler ran)
        [ev |-> "siblinghandler", id]  the panic handler of ANOTHER pool (alive next to this one, configured differently) was called
        [ev |-> "handler", id]         the panic handler was called (id = the job named in the panic value, 0 = something else)
      quiesced (the run waited for quiescence with the pool left open), accepted / ran at quiescence;
@@ -27,6 +28,7 @@ Why(r) ==
   ELSE IF Ids(E, "start") \cap Rejected(E) # {} THEN "a rejected job was run"
   ELSE IF \E k \in DOMAIN E : Running(E, k) > r.max THEN "more than workerSizeMaximum jobs executing at one instant"
   ELSE IF Ids(E, "stalehandler") # {} THEN "a panic was reported to a panic handler that had been replaced before the job was submitted"
+  ELSE IF Ids(E, "starved") # {} THEN "an accepted job could not run while the panic handler of another job was still running"
   ELSE IF Ids(E, "siblinghandler") # {} THEN "a panic of this pool's job was reported to the panic handler of another pool"
   ELSE IF \E id \in Ids(E, "panic") : CountEv(E, "handler", id) # 1 THEN "a panicking job was not reported exactly once to the panic handler"
   ELSE IF \E id \in Ids(E, "handler") : id \notin Ids(E, "panic") THEN "the panic handler was invoked for something that is not a job's own panic"
